@@ -445,6 +445,8 @@ def check_terminate(repo, rep):
 
 
 def run(repo: Repo, rep, tier: str):
+    from vlib import memo
+    rep.guarded(memo.check, repo, rep, "C06-R8", [("jesse/models/ClosedTrade.py", "ClosedTrade"), ("jesse/store/state_completed_trades.py", "ClosedTrades")], "trade records")
     rep.exhaustive = True
     rep.assume("backtest mode; exact arithmetic; time stamps are symbolic per fill")
     rep.guarded(check_effect_dispatch, repo, rep)
